@@ -134,6 +134,15 @@ func (w *haltWorld) bscStates(cs M) (exported.ClientState, exported.ConsensusSta
 	switch str(cs["extra"]) {
 	case "short":
 		h.Extra = h.Extra[:50]
+	case "sealonly":
+		// 20 bytes and a valid seal: long enough for the seal, too short for the 32-byte vanity prefix the validator list follows
+		h.Extra = make([]byte, 20+65)
+		func() {
+			defer func() { recover() }()
+			if sig, err := cryptoSign(bscSealHash(h, bscChainID).Bytes(), w.Keys, 2); err == nil {
+				copy(h.Extra[len(h.Extra)-65:], sig)
+			}
+		}()
 	case "odd":
 		h.Extra = append(append(append([]byte{}, h.Extra[:32]...), make([]byte, 10)...), make([]byte, 65)...)
 		reseal = true
